@@ -1104,6 +1104,11 @@ class Hist(Scenario):
                     self.files[self.files.index(f)] = nf
                     if f in self.styles:
                         self.styles[nf] = self.styles[f]
+                    if not self.profile.get("unstaged_replacement_hunks", True):
+                        # finding D75, second face: a STAGED rename makes the next commit add the whole file; an agent's later,
+                        # unstaged replacement of some of its lines then shifts that commit's note. While it is open the rename is
+                        # committed on its own.
+                        self.g("commit", "-q", "-m", "rename only")
         elif ch == "branch-D":
             br = self.new_branch_name("del")
             self.g("checkout", "-q", "-b", br)
